@@ -3,18 +3,63 @@
 import json, os
 HERE = os.path.dirname(os.path.abspath(__file__))
 CLAIMED = {
- 'C01': dict(technique='partial evaluation of the generator (ast interpreter, abstract children) + explicit-state provenance dataflow over every emitted skeleton; assume/guarantee induction over expression trees',
+ 'C01': dict(technique='partial evaluation of the code generator (ast interpreter, abstract children) + explicit-state provenance dataflow over every emitted skeleton; assume/guarantee induction over expression trees; translator literal mapping by path-representative evaluation',
              text='For all grammars over the listed constructs (structural induction on per-class summaries): failed attempts leave no trace in the position register, the static flags are sound, register protocol, and the PEG position/value-flow table hold for every configuration of every class in both calling conventions. Decides the structural clause, not parse results on inputs.',
              note='Assumes children obey their summaries (induction hypothesis), CPython semantics of emitted statements, outsourcer rendering. Not decided: regex engine behaviour, value equality on inputs, termination.', ref='3.1, 4 C01'),
- 'C02': dict(technique='partial evaluation of OperatorTable._compile + provenance dataflow with ghost state over the emitted shunting-yard loop; finite evaluation of the emitted precedence/associativity decision formula',
-             text='For every table shape x child flag state x convention: the table ends only after an operand or postfix operator, restores of the position saved before a consumed operator are terminal, no trace of failed attempts, sound flags; associativity ids of create() agree with the constants tested in the emitted loop. Structural clauses (a)-(c) only.',
+ 'C02': dict(technique='partial evaluation of OperatorTable._compile + provenance dataflow with ghost state over the emitted shunting-yard loop; finite evaluation of the emitted precedence/associativity decision chain; placement rule for the non-associativity test',
+             text='For every table shape x child flag state x convention: the table ends only after an operand or postfix operator, restores of the position saved before a consumed operator are terminal, no trace of failed attempts, sound flags; associativity ids of create() agree with the constants tested in the emitted loop and the decision is reduce/end/shift as precedence dictates; the conflict test sits inside the reduction loop. Structural clauses only.',
              note='Not decided: that shunting-yard builds the unique precedence tree for arbitrary token sequences. Assumes operator expressions are not always-succeeding.', ref='4 C02'),
- 'C03': dict(technique='partial evaluation of List/Sep._compile for every bound spelling / option combination + provenance dataflow with ghost state (bound tests, separator seen, last appended)',
+ 'C03': dict(technique='partial evaluation of List/Sep._compile for every bound spelling / option combination + provenance dataflow with ghost state (bound tests, separator seen, last appended); sibling comparison of int/str bound spellings; translator repeat mapping',
              text='Upper-bound test on every path from append to next attempt; lower-bound test guards success; trailing separator consumed iff allow_trailer; allow_empty/require_separator guard success; int/str spellings of bounds handled alike; G1-G3 so an incomplete repetition leaves no trace.',
              note='Assumes min_len <= max_len for symbolic bounds. Not decided: greediness on inputs, element values.', ref='4 C03'),
- 'C07': dict(technique='symbolic path enumeration of the trampoline loop with role inference (request/stack/memo) + def-use rules; leaf skeleton specs for request emission',
-             text='Generators are created only initially and on a memo miss; completion stores the result under the request key from the stack top; hits replay the stored object; memo is one fresh local dict per call; CALL tag cannot be confused with a status. Checked for both conventions and the copy in sourcer/parser.py.',
+ 'C04': dict(technique='module-level partial evaluation of the translator on route grammars with ignore declarations + object-graph rule (every literal flagged) + request-order rule on the emitted start function + who-may-call rule + E1 literal/Skip skeleton specs',
+             text='Structural half: every literal (also in ignored rules, template and keyword arguments, class members) skips after a match and only literals do; the start function first skips; the synthetic rule is Skip over exactly the ignored rules; the skip request is issued on the success path with the literal end; nobody else may skip.',
+             note='Not decided: the second sentence of the property (lengthening an ignorable run changes no value). Known findings: inherited anonymous / combined ignore declarations.', ref='4 C04'),
+ 'C05': dict(technique='E1 provenance rule on binders (Let, Seq names) + local-store rule + route rule on shadowing + who-reports rule for verbatim emission sites (free-variable protocol) + generated class table agreement',
+             text='Bound names hold the value of their expression at every later child start, are plain locals of the rule frame, and are emitted as locals even when a rule has the same name; Where/Apply value flow; class field tables/ctor args/member kinds agree.',
+             note='Not decided: what user Python computes. Known findings: inline Python, repeat counts and class fields are invisible to freevars().', ref='4 C05'),
+ 'C06': dict(technique='def/call conformance over emitted route modules (both conventions): every request, _ParseFunction, literal wrapper resolved to its definition and compared in arity/keywords/prefix; hashability of memo-key displays; sibling and visitor-coverage rules; computed interception table',
+             text='Every way a template argument is packaged (literal, reference, local, compound with 0-3 captured names, keyword, inline Python, byte, nested call) reaches a callee that accepts exactly what it will be passed, in both conventions.',
+             note='Not decided: equivalence with textual expansion on inputs; hashability of run-time argument values. Known findings: parameterised-rule entry, intercepted names.', ref='4 C06'),
+ 'C07': dict(technique='symbolic path enumeration of the trampoline loop with role inference (request/stack/memo) + def-use rules + stack-top mirror invariant for loop-carried variables; leaf skeleton specs for request emission',
+             text='Generators are created only initially and on a memo miss; completion stores the result under the request key from the stack top; hits replay the stored object; memo is one fresh local dict per call; CALL tag cannot be confused with a status. Checked on every emitted runtime variant and the copy in sourcer/parser.py.',
              note='Trusts CPython dict/tuple hashing. Not decided: running time.', ref='4 C07'),
+ 'C08': dict(technique='entry-point conformance over emitted modules + path rules on driver exits and _finalize_parse_info + guarded-subscript rule + must-raise rule on generated error functions + constructor/raise-site agreement',
+             text='Every public entry point has (text, pos=0, fullparse=True) and tail-calls the driver; success goes through _finalize_parse_info, failure calls the error function which always raises ParseError; PartialParseError(nodes, position at pos, excerpt) exactly when fullparse and input remains, else the same value; table subscripts guarded.',
+             note='Not decided: pos=k equals parsing text[k:] shifted. Known finding: entry point of parameterised rules.', ref='4 C08'),
+ 'C09': dict(technique='symbolic path enumeration of _extract_excerpt + affine entailment (Fourier-Motzkin) of slice/caret obligations per regime; transformer rule on the line/column map; path rules on generated error functions; exhaustive ordering evaluation of Choice farthest-failure epilogue',
+             text='Per regime: line start <= slice start <= pos < slice end <= line end and caret = (pos - slice start) + len(prefix); line/column tables count from (1,0) with the documented transitions; error functions report (None, None) exactly at end of input and the failure position otherwise; Choice reports the farthest failure.',
+             note='Preconditions: text[pos] not a line break, 0 <= pos < len(text). Not decided: which position is "the first character no token can match".', ref='4 C09'),
+ 'C10': dict(technique='E1 provenance rule on the span store of Seq-with-constructor + path rules on the conversion loop of _finalize_parse_info (iterates visit(nodes), inclusive end, one index per position, whole-text tables, guards) + who-may-write rule',
+             text='Recorded span = (entry position, success-exit position) on the new instance for every configuration; converted once for every instance reachable from the result in every emitted runtime variant.',
+             note='Not decided: nesting/disjointness of spans on inputs.', ref='4 C10'),
+ 'C11': dict(technique='def/call conformance, context wiring, free-name closure and optimisation-independence over every route module emitted in both conventions; flag-use, determinism rules on translator/grammar sources',
+             text='The only variant-dependent input to emission (uses_context) is threaded consistently through every signature and call on every route; emitted modules are self-contained; include_source and run-dependent values do not reach the text (except the recorded anonymous-rule name).',
+             note='Not decided: equality of results between variants on inputs.', ref='4 C11'),
+ 'C13': dict(technique='emission of base / sub-grammar / third-level route modules + cross-module wiring rules (attributes read through _ctx by inherited code vs. assigned on the derived context; _super_ctx reads vs. parent context), lexical-super and late-binding rules, path rule on _install_module',
+             text='Non-local references are late-bound through _ctx (also rules passed as arguments), super is rooted at the module-global _super_ctx, contexts are completely wired at every level, the parent is only read, named modules are registered on every path.',
+             note='Known findings: anonymous ignore inheritance; combined ignore declarations.', ref='4 C13'),
+ 'C14': dict(technique='symbolic path enumeration of ParsedObject.__eq__/__hash__/_asdict/_replace/_hash + table agreement rules on node classes and generated classes + __getattr__ copy-safety rule',
+             text='Equality is class-test-then-fields over exactly _fields, hashing covers the same fields through a container-aware helper, neither reads metadata or identity; _replace constructs through the class; field tables, constructors and repr agree; copy/pickle cannot recurse in __getattr__.',
+             note='Not decided: == being an equivalence for arbitrary user field values.', ref='4 C14'),
+ 'C15': dict(technique='symbolic path enumeration of one iteration of the visit/traverse work loops (work stack found by role) + LIFO/reversed, children, identity-dedup, finished-marker and no-recursion rules',
+             text='Per-iteration rules that give, by induction on the stack, parents-first left-to-right enumeration with identity de-duplication of expandable nodes only and properly nested traverse events.',
+             note='Event sequences on concrete trees are not re-derived.', ref='4 C15'),
+ 'C16': dict(technique='symbolic path enumeration of _transform and the callback chain + purity (no store rooted at the input), post-order, metadata-guard and order rules; _replace rule shared with C14',
+             text='Post-order rebuild, identity-based change detection, element-wise lists, unchanged leaves, no mutation of the input, guarded metadata copy, callbacks in order.',
+             note='Not decided: exactly-once when callbacks alias nodes.', ref='4 C16'),
+ 'C17': dict(technique='effect rule "may suspend" on spill helpers emitted for a deep-nesting route (both conventions) + free-name closure inside helpers + call-graph cycle check on driver and walkers + no-direct-rule-call rule',
+             text='Helpers whose body suspends are generators delegated to with yield from and return the register triple; callers assign exactly the triple; helpers get every name they read; rule recursion only through requests; driver/walkers cycle-free.',
+             note='Not decided: memory limits, CPython nesting limits.', ref='4 C17'),
+ 'C18': dict(technique='lexical scope resolution of every store/mutation root in all functions of the emitted runtimes, emitted route modules, shipped parser, grammar.py, translator.py, expressions/*.py; mutable-default and decorator rules; per-call locals rule on the driver',
+             text='Nothing written inside a function outlives the call except through one named exception (sys.modules in _install_module); memo/stack are per-call locals; emitted rule code stores only through locals.',
+             note='Thread scheduling itself is not modelled (nothing is shared).', ref='4 C18'),
+ 'C19': dict(technique='evaluation of translator._create_parsing_expression by the ast interpreter on both syntax trees of each documented spelling pair, canonical comparison; precedence tags of the shipped Expr table vs. documented order',
+             text='Translator half: both spellings of every pair build the same expression object; Expr rows are tagged in the documented order, binary rows left-associative.',
+             note='Not decided: lexical alternatives of the metagrammar (input-level behaviour of the generated parser).', ref='4 C19'),
+ 'C20': dict(technique='computed namespace tables: temporaries per scope (out.var bases), bare-name global/builtin reads (symbol tables of emitted modules), reserved class-body names, intercepted names; every user-space instance must be listed',
+             text='Every generated identifier that can meet a user identifier is enumerated from the source; the instances existing today are recorded as known findings, any new one is a violation.',
+             note='All current instances are genuine collisions (probes under findings/probes).', ref='4 C20'),
 }
 NA = {
  'C12': 'Bootstrap fixed point compares outputs of executing the generator across generations; any static surrogate is either a text comparison that fires on harmless edits or a re-execution of the generator (DESIGN.md section 6).',
